@@ -236,6 +236,49 @@ func (r *rig) NextGen(onFrame func(*peer.Conn, peer.Frame) bool) (*peer.Conn, er
 	return pc, nil
 }
 
+// NextGenRetry is NextGen tolerant of generations the library has already given up on (a connection
+// that sat in the listen backlog past the library's timers, a connect refused by a generation that is
+// still tearing down): it takes the next one, up to attempts times. missed counts the skipped ones.
+func (r *rig) NextGenRetry(onFrame func(*peer.Conn, peer.Frame) bool, attempts int) (pc *peer.Conn, missed int, err error) {
+	for a := 0; a < attempts; a++ {
+		pc, err = r.PeerConnect(10 * time.Second)
+		if err != nil {
+			return nil, missed, err
+		}
+		inner := onFrame
+		pc.OnFrame = func(c *peer.Conn, f peer.Frame) bool {
+			if f.PType == 0 && (f.SType == peer.STSelectReq || f.SType == peer.STSelectRsp) {
+				return true
+			}
+			if inner == nil {
+				return true
+			}
+
+			return inner(c, f)
+		}
+		pc.Start()
+		if _, err = r.PeerSelect(pc, 3*time.Second); err == nil {
+			ok := waitFor(10*time.Second, func() bool {
+				select {
+				case <-pc.Done():
+					return true
+				default:
+				}
+
+				return r.Conn.State() == hsms.SelectedState
+			})
+			if ok && r.Conn.State() == hsms.SelectedState {
+				return pc, missed, nil
+			}
+			err = errors.New("library did not reach Selected")
+		}
+		missed++
+		pc.Close()
+	}
+
+	return nil, missed, err
+}
+
 // Shutdown closes the library connection and the peer listener.
 func (r *rig) Shutdown() error {
 	err := r.Conn.Close()
